@@ -27,8 +27,7 @@ Check stale_cache_misroutes.
 
 (* tie: the functions this property's model describes by hand (not by translation) still have the pinned text; an
    edit to one of them breaks this obligation and sends the check searching for a failing input *)
-From VL Require Import ShapeFacts.
 From VLG Require Import ShapeGen.
 Theorem C18_modelled_code_is_the_pinned_text : shapes_for_C18 = true.
-Proof. exact shapes_C18_ok. Qed.
+Proof. vm_compute. reflexivity. Qed.
 Print Assumptions C18_modelled_code_is_the_pinned_text.
